@@ -19,11 +19,11 @@ def universes(tier, seed):
     ks = sorted(U.kernel_small(3))
     kk = [("u", ("k", a), ("k", b)) for a in ks for b in ks if a <= b]
     if tier == "quick":
-        out.append((f"KxK[{seed % 4}/4]", U.shard(kk, seed, 4)))
-        out.append((f"F3c[{seed % 16}/16]", [("idx", 3, i) for i in U.shard(U.F3_indices(True), seed, 16)]))
+        out.append((f"KxK[{seed % 16}/16]", U.shard(kk, seed, 16)))
+        out.append((f"F3c[{seed % 32}/32]", [("idx", 3, i) for i in U.shard(U.F3_indices(True), seed, 32)]))
         out.append((f"MULTI3[{seed % 4}/4]", [("idx", 3, i) for i in U.shard(U.catalogue("multi"), seed, 4)]))
-        out.append((f"MAA3[{seed % 256}/256]", [("idx", 3, i) for i in U.shard(U.catalogue("maa"), seed, 256)]))
-        out.append((f"MAA3[{seed % 2048}/2048]+switch", [("u", ("idx", 3, i), ("k", "bistable")) for i in U.shard(U.catalogue("maa"), seed, 2048)]))
+        out.append((f"MAA3[{seed % 1024}/1024]", [("idx", 3, i) for i in U.shard(U.catalogue("maa"), seed, 1024)]))
+        out.append((f"MAA3[{seed % 8192}/8192]+switch", [("u", ("idx", 3, i), ("k", "bistable")) for i in U.shard(U.catalogue("maa"), seed, 8192)]))
     else:
         out.append(("KxK", kk))
         out.append(("F3c", [("idx", 3, i) for i in U.F3_indices(True)]))
@@ -37,16 +37,21 @@ def plan(tier, seed):
     us = universes(tier, seed)
     units = []
     for name, specs in us:
-        hist = 2 if name == "K" else (1 if name == "U2" else 0)
-        if tier != "quick" and name in ("K", "U2"):
-            hist = 2
-        for ch in U.chunks(specs, 2 if hist else 12):
-            units.append((name, ch, hist))
-    units.sort(key=lambda u: -u[2])
+        for spec in (specs if name in ("K", "U2") else []):
+            sz = len(U.resolve(spec).sd[0])
+            if tier == "quick":
+                hist = (2 if sz <= 3 else 1 if sz <= 5 else 0) if name == "K" else (1 if sz >= 2 else 0)
+            else:
+                hist = 2 if sz <= 7 else 1
+            units.append((name, [spec], hist))
+        if name not in ("K", "U2"):
+            for ch in U.chunks(specs, 1 if ("KxK" in name or "switch" in name) else 6):
+                units.append((name, ch, 0))
+    units.sort(key=lambda u: (-u[2], not ("KxK" in u[0] or "switch" in u[0])))
     return {
         "units": units, "universes": {n: len(s) for n, s in us},
         "bounds": {"partial expansion": "7 partial strategies x every size limit 1..|full diagram|; plus every state reachable by "
-                   "plain-alphabet histories of depth <= 2 (K) / 1 (U2)",
+                   "plain-alphabet histories of depth <= 2 (K, small diagrams; 1 or 0 for larger ones) / 1 (U2)",
                    "completion routes": "skip_remaining | skip_to_minimal on every subset of stubs (<=3 stubs; else each single stub "
                    "and all) in id order then skip_remaining | expand_minimal_spaces(skip_ignored=True) then skip_remaining",
                    "seed query order": "ascending, descending; all permutations when the completed diagram has <= 4 nodes"},
